@@ -18,6 +18,13 @@ def check_formulas(fs, timeout_ms=20000, use_cvc5=True, want_model=True):
     """fs: list of z3 Bool whose conjunction should be UNSAT. Returns (status, model|None, backend, secs)."""
     t0 = time.time()
     fs = list(fs)
+    # first without the instantiated T-REAL axioms: they only add hypotheses, so `unsat` here is already a proof, and many
+    # obligations (index arithmetic, congruence) are decided much more robustly without them
+    if not _mentions_real_symbols(fs):
+        s0 = _solver(min(int(timeout_ms), 15000))
+        s0.add(*fs)
+        if s0.check() == z3.unsat:
+            return "discharged", None, "z3", time.time() - t0
     ax = real.axioms_for(fs)
     # second round: axioms may introduce new exp/log terms (exp(x), exp(y) from exp(x+y))
     ax1b = real.axioms_for(fs + ax)
@@ -51,6 +58,22 @@ def check_formulas(fs, timeout_ms=20000, use_cvc5=True, want_model=True):
         except Exception:
             pass
     return "unknown", None, "z3", time.time() - t0
+
+
+def _mentions_real_symbols(fs):
+    todo, seen = list(fs), set()
+    while todo:
+        t = todo.pop()
+        if t.get_id() in seen:
+            continue
+        seen.add(t.get_id())
+        if z3.is_quantifier(t):
+            todo.append(t.body())
+        elif z3.is_app(t):
+            if any(t.decl().eq(d) for d in (real.EXP, real.LOG, real.SQRT, real.POW)):
+                return True
+            todo.extend(t.children())
+    return False
 
 
 def is_definitive(fs):
